@@ -253,6 +253,29 @@ struct gr
     return G(ut::to_dim(d), [k](pos const &p) { return static_cast<long>(enc(k, ut::from(p))); });
   }
 
+  // the function constructor must call the function once per position, in storage order (x fastest)
+  static bool mk_call_order_ok(ivec const &d, ll k)
+  {
+    std::vector<ivec> seen;
+    G const g(ut::to_dim(d), [k, &seen](pos const &p) {
+      seen.push_back(ut::from(p));
+      return static_cast<long>(enc(k, ut::from(p)));
+    });
+    std::vector<ivec> want;
+    tuples(konst_(0), d, [&want](ivec const &t) { want.push_back(t); });
+    return seen == want;
+  }
+
+  static ivec konst_(ll c) { return ivec(N, c); }
+
+  static std::size_t volume(ivec const &d)
+  {
+    std::size_t r = 1;
+    for (ll x : d)
+      r *= static_cast<std::size_t>(x);
+    return r;
+  }
+
   static TG mkt(ivec const &d, ll k)
   {
     return TG(ut::to_dim(d), [k](pos const &p) { return tcell(static_cast<long>(enc(k, ut::from(p)))); });
@@ -364,8 +387,15 @@ struct gr
   static std::string resize_line(ivec const &d, ll k, ivec const &nd, ll k2)
   {
     G const g{mk(d, k)};
-    auto const init = [k2](pos const &p) { return static_cast<long>(enc(k2, ut::from(p))); };
+    std::size_t init_calls = 0;
+    auto const init = [k2, &init_calls](pos const &p) {
+      ++init_calls;
+      return static_cast<long>(enc(k2, ut::from(p)));
+    };
     G const r{grid::resize(g, ut::to_dim(nd), init)};
+    // init is called for the positions that are not positions of the old grid, and only for those
+    if (init_calls != volume(nd) - common(d, nd))
+      return "resize-called-init-wrong-number-of-times";
     // the rvalue overload moves the cells; for long the result must be identical
     G const r2{grid::resize(mk(d, k), ut::to_dim(nd), init)};
     if (!(r.size() == r2.size()) || cells(r) != cells(r2))
@@ -389,7 +419,23 @@ struct gr
   static std::string map_line(ivec const &d, ll k, ll a, ll b)
   {
     G const g{mk(d, k)};
-    G const r{grid::map(g, [a, b](long const x) { return static_cast<long>(a * x + b); })};
+    std::size_t calls = 0;
+    G const r{grid::map(g, [a, b, &calls](long const x) {
+      ++calls;
+      return static_cast<long>(a * x + b);
+    })};
+    if (calls != volume(d))
+      return "map-called-function-wrong-number-of-times";
+    {
+      // the same object as both operands of apply: cell i of the result is f(cell i, cell i)
+      G const twice{grid::apply([](long const x, long const y) { return static_cast<long>(x * 3 - y); }, g, g)};
+      auto it = g.begin();
+      bool ok = twice.size() == g.size();
+      for (auto jt = twice.begin(); ok && jt != twice.end(); ++jt, ++it)
+        ok = it != g.end() && *jt == *it * 3 - *it;
+      if (!ok || it != g.end())
+        return "apply-same-object-mismatch";
+    }
     auto const tf = [a, b](tcell const c) { return static_cast<long>(a * c.v + b); }; // by value: an rvalue cell is moved from
     TG src{mkt(d, k)};
     std::string const before = cells(src);
@@ -412,7 +458,13 @@ struct gr
     std::string const b1 = cells(s1), b2 = cells(s2);
     if (ds.size() == 2)
     {
-      G const r{grid::apply([](long const a, long const b) { return static_cast<long>(a * 1009 + b); }, g1, g2)};
+      std::size_t calls = 0;
+      G const r{grid::apply([&calls](long const a, long const b) {
+        ++calls;
+        return static_cast<long>(a * 1009 + b);
+      }, g1, g2)};
+      if (calls != (ds[0] == ds[1] ? volume(ds[0]) : 0))
+        return "apply-called-function-wrong-number-of-times";
       auto const tf = [](tcell const a, tcell const b) { return static_cast<long>(a.v * 1009 + b.v); };
       G const t1{grid::apply(tf, s1, s2)};
       if (cells(s1) != b1 || cells(s2) != b2)
@@ -449,7 +501,13 @@ struct gr
   static std::string fill_line(ivec const &d, ll v, ll k)
   {
     G g(ut::to_dim(d), static_cast<long>(v));
-    grid::fill(g, [k](pos const &p) { return static_cast<long>(enc(k, ut::from(p))); });
+    std::size_t calls = 0;
+    grid::fill(g, [k, &calls](pos const &p) {
+      ++calls;
+      return static_cast<long>(enc(k, ut::from(p)));
+    });
+    if (calls != volume(d))
+      return "fill-called-function-wrong-number-of-times";
     return grid_str(g);
   }
 
@@ -647,7 +705,11 @@ std::string handle_grid(std::vector<std::string> const &t)
   std::string const &op = t[0];
   ivec const d = vh::int_list(t[1]);
   if (op == "mk")
+  {
+    if (!R::mk_call_order_ok(d, vh::to_ll(t[2])))
+      return "function-constructor-call-order-mismatch";
     return R::grid_str(R::mk(d, vh::to_ll(t[2])));
+  }
   if (op == "mkc")
     return R::grid_str(typename R::G(R::ut::to_dim(d), static_cast<long>(vh::to_ll(t[2]))));
   if (op == "all")
